@@ -19,7 +19,7 @@ LEVEL = 'exploration'
 RULE = ('mixed_rank_graph (in-process pool) on every string frame with 2 feature columns + label, n<=3 (quick) / n<=4 (thorough) rows, every '
         'combination of per-column partitions (RGS(n)^3) instantiated with two value maps over {"", 0, 10, 9, ü, "a b"} (sorted-order coding differs from '
         'numeric order), label first/middle/last, heuristics {MI, MI-numba-randomized, MI-numba-3mr, max-value-coverage, AMI, correlation-Pearson, Constant} '
-        'x target-only/pairwise; every emitted triplet compared with an independent reference on my own coding; one 900-row frame with 300 / 140 categories (int16 codes); a directed max-value-coverage family '
+        'x target-only/pairwise; every emitted triplet compared with an independent reference on my own coding; one 900-row frame with 300 / 140 categories (int16 codes); one 40 000-row frame with an identifier column (> 2^15 categories); column-name sets in which names contain the label name or each other; a directed max-value-coverage family '
         '(hash-slot collisions, int8/int16 code dtypes, a 26x26 grid of code magnitudes around powers of ten and two); every documented non-surrogate heuristic name must not degrade to a constant; sequence differential: every sequence of <= 3 batches from a 5-frame menu (same column names, unseen values, other row counts) in one process state vs a pristine state. '
         'distinct_nontrivial = (frame, heuristic, mode) cases whose reference scores take >= 2 distinct values')
 ASSUMPTIONS = ['scikit-learn adjusted_mutual_info_score and numpy.corrcoef are trusted as references for AMI / Pearson',
@@ -65,21 +65,21 @@ def near(a, b):
     return abs(a - b) <= ATOL + ATOL * abs(b)
 
 
-def run_graph(columns, data, heuristic, pairwise):
+def run_graph(columns, data, heuristic, pairwise, label='label'):
     import pandas as pd
     from outrank import core_ranking as cr
     harness.reset_state()
     df = pd.DataFrame({c: list(v) for c, v in zip(columns, data)})
-    args = harness.make_args(heuristic=heuristic, target_ranking_only='False' if pairwise else 'True')
+    args = harness.make_args(heuristic=heuristic, target_ranking_only='False' if pairwise else 'True', label_column=label)
     with warnings.catch_warnings():
         warnings.simplefilter('ignore')
         res = cr.mixed_rank_graph(df, args, harness.InlinePool(), harness.NullBar())
     return res.triplet_scores
 
 
-def judge(columns, data, heuristic, pairwise):
+def judge(columns, data, heuristic, pairwise, label='label'):
     """returns (failures [(sig,msg)], set of reference score values)"""
-    ok, trip = safe(run_graph, columns, data, heuristic, pairwise)
+    ok, trip = safe(run_graph, columns, data, heuristic, pairwise, label)
     if not ok:
         return [({'kind': 'exception', 'heuristic': heuristic}, f'{heuristic}: mixed_rank_graph raised {trip}')], set()
     cod = {c: coded(v) for c, v in zip(columns, data)}
@@ -95,9 +95,9 @@ def judge(columns, data, heuristic, pairwise):
         except Exception:
             fails.append(({'kind': 'type', 'heuristic': heuristic}, f'score {s!r} is not a number'))
             continue
-        if a == 'label' or b == 'label':
-            feat = b if a == 'label' else a
-            cands = [ref_score(heuristic, cod[feat], cod['label'])]
+        if a == label or b == label:
+            feat = b if a == label else a
+            cands = [ref_score(heuristic, cod[feat], cod[label])]
         else:
             cands = [ref_score(heuristic, cod[a], cod[b]), ref_score(heuristic, cod[b], cod[a])]
         for c in cands:
@@ -217,6 +217,61 @@ def _midcard(_):
     return st
 
 
+NAME_SETS = [
+    (['click_count', 'xclick', 'click'], 'click'),        # feature names that contain / start with / end with the label's name
+    (['day', 'city', 'y'], 'y'),
+    (['user', 'user-type', 'type-id', 'id', 'label'], 'label'),   # names whose hyphen-joins coincide
+    (['a AND b', 'a', 'b', 'label'], 'label'),
+]
+
+
+def _names(_):
+    """column names that contain the label's name or each other: every heuristic, both modes, label first/last"""
+    from mc.checks.c09 import lcg_stream
+    st = Stats()
+    for names, label in NAME_SETS:
+        g = lcg_stream(len(names) * 7)
+        n = 9
+        cols = {}
+        prev = [0] * n
+        for j, c in enumerate(names):
+            cols[c] = [str((prev[i] + next(g) % (2 + j % 2)) % (j + 2)) for i in range(n)]
+            prev = [int(v) * 2 + 1 for v in cols[c]]
+        for order in (names, list(reversed(names))):
+            data = [cols[c] for c in order]
+            for heuristic in HEURISTICS:
+                for pairwise in (False, True):
+                    fails, refvals = judge(order, data, heuristic, pairwise, label)
+                    st.count('evaluations')
+                    st.count('name_cases')
+                    if len(refvals) >= 2:
+                        st.count('nontrivial')
+                    for sig, msg in fails:
+                        st.violation({'kind': 'names', 'columns': order, 'data': data, 'label': label, 'heuristic': heuristic, 'pairwise': pairwise}, msg, dict(sig, names=True))
+    return st
+
+
+def _bigcard(_):
+    """one 40 000-row batch with an identifier column (more than 2^15 categories) and a 300-category column: Pearson, coverage and the numba scores"""
+    from mc.checks.c09 import lcg_stream
+    st = Stats()
+    g = lcg_stream(5)
+    n = 40000
+    ident = [f'id{(i * 7919) % 1000003:07d}' for i in range(n)]
+    lab = [str((i // 3 + next(g) % 2) % 2) for i in range(n)]
+    mid = [f'm{(int(lab[i]) * 3 + next(g) % 300)}' for i in range(n)]
+    names = ['ident', 'mid', 'label']
+    data = [ident, mid, lab]
+    for heuristic in ('correlation-Pearson', 'max-value-coverage', 'MI-numba-3mr', 'MI-numba-randomized'):
+        fails, refvals = judge(names, data, heuristic, False)
+        st.count('evaluations')
+        st.count('bigcard_cases')
+        st.count('nontrivial')
+        for sig, msg in fails:
+            st.violation({'kind': 'bigcard', 'heuristic': heuristic}, msg[:400], dict(sig, bigcard=True))
+    return st
+
+
 def documented_names():
     names = set()
     root = '/repo'
@@ -298,7 +353,7 @@ def _seqdiff(job):
 
 def _dispatch(item):
     k, job = item
-    return {'frames': _frames, 'coverage': _coverage, 'documented': _documented, 'seqdiff': _seqdiff, 'midcard': _midcard}[k](job)
+    return {'frames': _frames, 'coverage': _coverage, 'documented': _documented, 'seqdiff': _seqdiff, 'midcard': _midcard, 'names': _names, 'bigcard': _bigcard}[k](job)
 
 
 def run(ctx):
@@ -306,7 +361,7 @@ def run(ctx):
     for n in ((1, 2, 3) if not ctx.thorough else (1, 2, 3, 4)):
         tot = enum.BELL[n] ** 3
         jobs += [('frames', (n, lo, hi)) for lo, hi in shards(tot, 96 if n == 4 else 16)]
-    jobs += [('coverage', None), ('documented', None), ('midcard', None)]
+    jobs += [('coverage', None), ('documented', None), ('midcard', None), ('names', None), ('bigcard', None)]
     jobs += [('seqdiff', (h, pw)) for h in ('MI-numba-randomized', 'MI', 'max-value-coverage', 'AMI') for pw in (False, True)]
     for st in pmap(_dispatch, jobs):
         ctx.stats.merge(st)
@@ -319,6 +374,11 @@ def eval_case(case):
     k = case['kind']
     if k == 'seqdiff':
         return seqdiff.replay(seq_call, seq_menu(tuple(case['job'])), case['seq'])
+    if k == 'names':
+        fails, _ = judge(case['columns'], case['data'], case['heuristic'], case['pairwise'], case['label'])
+        return [m for _, m in fails]
+    if k == 'bigcard':
+        return [v['what'] for v in _bigcard(None).violations if v['case']['heuristic'] == case['heuristic']]
     if k == 'midcard':
         return [v['what'] for v in _midcard(None).violations if v['case']['heuristic'] == case['heuristic']]
     if k == 'frame':
